@@ -778,20 +778,30 @@ impl<'r> Lowerer<'r> {
         let ty = self.type_info.type_of(id);
         let ty = self.type_info.convert(&ty);
 
-        let to = self.tmp(ty);
-
+        // Evaluate all fields before creating the record. A field expression
+        // can leave the function early (`return`, `?`) and at that point we
+        // drop everything that is live: that must be the fields evaluated so
+        // far and not a record that is only partially initialized.
+        let mut fields = Vec::new();
         for (s, expr) in &record.fields {
             let op = self.expr(expr);
             let field_ty = self.type_info.type_of(expr);
             let field_ty = self.type_info.convert(&field_ty);
+            let var = self.assign_to_var(op, field_ty);
+            fields.push((**s, field_ty, var));
+        }
+
+        let to = self.tmp(ty);
+
+        for (s, field_ty, var) in fields {
             self.do_assign(
                 Place {
                     var: to.clone(),
                     root_ty: ty,
-                    projection: vec![Projection::Field(**s)],
+                    projection: vec![Projection::Field(s)],
                 },
                 field_ty,
-                op,
+                Value::Move(var),
             );
         }
 
